@@ -235,11 +235,11 @@ PROPS = {
     },
     "C10": {
         "nt_rule": "async3",
-        "level": "other", "module": "Resolvo.Props.C10", "theorems": ["Resolvo.C10.request_guard", "Resolvo.MDet.listener_issues_nothing", "Resolvo.MDet.pollCands_spec", "Resolvo.C10.verdict_reference"],
+        "level": "other", "module": "Resolvo.Props.C10", "theorems": ["Resolvo.C10.at_most_once_candidates", "Resolvo.MDet.asyncStep_cinv", "Resolvo.C10.callbacks_issue_nothing", "Resolvo.C10.request_guard", "Resolvo.MDet.listener_issues_nothing", "Resolvo.MDet.pollCands_spec", "Resolvo.C10.verdict_reference"],
         "families": [("async", {"quick": 8000, "thorough": 150000}), ("reuse-async", {"quick": 4000, "thorough": 80000}), ("async-cf", {"quick": 4000, "thorough": 80000})],
         "explanation": "MODEL: MDet/Async.lean models Encoder::encode with a suspending provider exactly - FuturesUnordered's ready queue, the in-flight marker and Event listeners of get_or_cache_candidates, try_join_all over the version sets of a requirement, and the executor's quiescent points - for a single-threaded executor that completes one outstanding request at a time; the schedule (completion order) is an input. "
                        "TIE (every async case, incl. asynchronous filter/sort - their gates are modelled as two further suspension stages of a requirement's children): result, solution order, provider call log with the start (c/d) and answer-obtained (C/D) markers and cancellation polls, the executor's event log (`pending <set>` at every quiescent point, `complete <label>`) and the complete solver history are compared for exact equality with the real solver run under the same completion order (FIFO, LIFO, seeded random schedules; also after Cancelled/Unsolvable solves on a reused solver). "
-                       "CHECKED PER RUN on every case incl. asynchronous filter/sort: validB on every answer, verdict = verified decideSolvable (= sync verdict), no provider request issued twice within a solve and none repeated once answered, no deadlock (solver pending with nothing outstanding), no panic. PROVED (step level, all universes/states): a get_candidates request is issued only when the answer is neither cached nor in flight and is in flight afterwards (request_guard), an await that finds a request in flight issues nothing (listener_issues_nothing); exactness of the verdict reference; the checked-model theorems of C01/C02/C05 apply to the async model's answers as to the sync model's. NOT PROVED: the run-level invariants (no request twice in a whole solve) are evaluated per run; waker delivery and cooperative yielding of real multi-threaded executors are outside the model.",
+                       "CHECKED PER RUN on every case incl. asynchronous filter/sort: validB on every answer, verdict = verified decideSolvable (= sync verdict), no provider request issued twice within a solve and none repeated once answered, no deadlock (solver pending with nothing outstanding), no panic. PROVED (run level, all universes / problems / solver states / completion orders): along every run of the model's encoder loop no package's candidates are requested twice and every requested package is answered or still in flight (at_most_once_candidates: asyncStep_cinv + the frame lemmas of MDet/Frame.lean showing that the clause-generating callbacks never touch the provider cache); step level: a get_candidates request is issued only when the answer is neither cached nor in flight (request_guard), an await that finds a request in flight issues nothing (listener_issues_nothing); exactness of the verdict reference; the checked-model theorems of C01/C02/C05 apply to the async model's answers as to the sync model's. NOT PROVED: at-most-once for get_dependencies (guaranteed by the encoder's processed set and, for queries from inside sort_candidates, by the in-flight table added in fix bd5e696) and deadlock-freedom are evaluated per run; waker delivery and cooperative yielding of real multi-threaded executors are outside the model.",
         "assumptions": ["single-threaded executor that wakes a task only when the future it is parked on completes"],
     },
     "C11": {
@@ -286,7 +286,7 @@ PROPS = {
                      "Resolvo.C19.iter_complete", "Resolvo.C19.iter_sorted", "Resolvo.C19.iter_nodup",
                      "Resolvo.C19.len_eq_iter_length", "Resolvo.C19.isEmpty_iff", "Resolvo.C19.serde_roundtrip"],
         "families": [("mapping", {"quick": 8000, "thorough": 200000})],
-        "assumptions": ["the chunk size is the constant re-read from src/internal/mapping.rs on every run (theorems hold for every positive size)",
+        "assumptions": ["the stored values serialise injectively and never as JSON `null` (serde_json cannot tell Some(None) / Some(()) from an empty slot in the array-of-options format; resolvo itself stores Solvable, VersionSet, Package, String and sets only) - observed by a sub-agent on the unmodified code; outside the quantifier of C19 (histories and id distributions), see DESIGN.md", "the chunk size is the constant re-read from src/internal/mapping.rs on every run (theorems hold for every positive size)",
                         "serde_json's text layer is not modelled: a Mapping is serialised as the list the model says",
                         "pointer-level unsafe code (get_unchecked) is modelled as checked indexing"],
         "trusted_base": [],
